@@ -6,6 +6,7 @@ Model: Iec.Link101 (link_layer.c, serial_transceiver_ft_1_2.c), tied to the C co
 differential of checks/link_common.py (real link layer over the simulated serial port).
 -/
 import Iec.Lemmas.Link101
+import Iec.Lemmas.Link101Parse
 namespace Iec.Props.C14
 open Iec.Link101
 
@@ -214,30 +215,7 @@ data that was encoded, for every address width, control octet, address and data 
 theorem var_roundtrip (aL c a : Nat) (d f buf : List Nat) (hA : aL ≤ 2)
     (hv : varFrame aL c a d = some f) :
     readNext aL f buf = ([], f ++ buf.drop f.length, some f.length) ∧
-    userDataOf (f ++ buf.drop f.length) (5 + aL) d.length = d := by
-  unfold varFrame at hv
-  simp only at hv
-  split at hv
-  · cases hv
-  · rename_i hl
-    injection hv with hv
-    subst hv
-    have hlen : (addrBytes aL a).length = aL := addrBytes_length aL a hA
-    constructor
-    · have := readNext_var aL (1 + aL + d.length)
-        ([1 + aL + d.length, 0x68] ++ (c :: addrBytes aL a ++ d) ++ [sum8 (c :: addrBytes aL a ++ d), 0x16]) buf
-        (by simp [hlen]; omega)
-      simp only [List.cons_append, List.nil_append, List.append_assoc] at this ⊢
-      rw [this]
-      simp [hlen]
-      omega
-    · unfold userDataOf
-      generalize hT : List.drop _ buf = T
-      have e : ([0x68, 1 + aL + d.length, 1 + aL + d.length, 0x68] ++ (c :: addrBytes aL a ++ d) ++
-          [sum8 (c :: addrBytes aL a ++ d), 0x16] ++ T) =
-          ([0x68, 1 + aL + d.length, 1 + aL + d.length, 0x68, c] ++ addrBytes aL a) ++ (d ++ ([sum8 (c :: addrBytes aL a ++ d), 0x16] ++ T)) := by simp
-      rw [e, List.drop_left' (by simp [hlen]; omega)]
-      simp
+    userDataOf (f ++ buf.drop f.length) (5 + aL) d.length = d := readNext_varFrame aL c a d f buf hA hv
 
 /-! ### the statements are not vacuous (tests, labelled as such) -/
 
